@@ -169,7 +169,7 @@ class ChipMonitor(Monitor):
 
 
 def make_monitors():
-    return [driver.Observer(), ChipMonitor()]
+    return [driver.Observer(), driver.Interleaver(), ChipMonitor()]
 
 
 def gen_kwargs(rng):
